@@ -55,8 +55,22 @@ func c08Wiring(p *Prog, r *Report) {
 				"pool built without the shared prepared cache: its connections never re-prepare and clients see UNPREPARED")
 		}
 	}
-	if nlit < 2 {
-		fatalf("rule %s: only %d connPool literals found (2 confirmed by hand)", rule, nlit)
+	if nlit < 1 {
+		fatalf("rule %s: no connPool literal found", rule)
+	}
+	// both pool constructors obtain their pool from such a literal (directly or through a shared helper)
+	for _, ctor := range []string{"connectPool", "connectPoolNoFail"} {
+		f := p.FuncOpt("proxycore", ctor)
+		if f == nil {
+			continue
+		}
+		has := false
+		for _, g := range withCallees(p, f, 2) {
+			if len(structLits(g, func(t types.Type) bool { return typeIs(t, "proxycore", "connPool") })) > 0 {
+				has = true
+			}
+		}
+		r.check(has, rule, "connPool constructor "+ctor, p.Pos(f.Pos()), "", "does not build its pool from a literal that carries the prepared cache")
 	}
 	// (2) connect -> ConnectClient(ClientConnConfig{PreparedCache: p.preparedCache})
 	pool := p.Named("proxycore", "connPool")
@@ -95,15 +109,15 @@ func c08Wiring(p *Prog, r *Report) {
 	sess := p.Named("proxycore", "Session")
 	onEvent := p.methodOf(sess, "OnEvent")
 	npc := 0
-	for _, fn := range withClosures(onEvent) {
+	for _, fn := range withCallees(p, onEvent, 2) {
 		for _, lit := range structLits(fn, func(t types.Type) bool { return typeIs(t, "proxycore", "connPoolConfig") }) {
 			npc++
 			ok := strings.HasSuffix(fieldPath(lit["SessionConfig"]), ".config")
 			r.check(ok, rule, fmt.Sprintf("connPoolConfig#%d@%s", npc, fn.Name()), p.Pos(fn.Pos()), "", "pool created with something other than the session's configuration")
 		}
 	}
-	if npc < 2 {
-		fatalf("rule %s: only %d connPoolConfig literals in Session.OnEvent (2 confirmed by hand)", rule, npc)
+	if npc < 1 {
+		fatalf("rule %s: no connPoolConfig literal reachable from Session.OnEvent", rule)
 	}
 }
 
@@ -140,7 +154,7 @@ func c08CacheBeforeDeliver(p *Prog, r *Report) {
 		s.Tracked[pcF] = true
 		s.Model = func(sm *Sim, st *State, call ssa.CallInstruction, callee *ssa.Function) []*State {
 			switch {
-			case callIsMethod(call, "proxycore", "pendingRequests", "loadAndDelete"):
+			case callee != nil && callee == getPendingRoles(p).loadAndDelete:
 				SetCallResult(st, call, avSymbol("req"))
 				return []*State{st}
 			case callee == cacheFn:
@@ -348,16 +362,54 @@ func c08RawBody(p *Prog, r *Report) {
 	}
 	var bad []string
 	for i, in := range sites {
-		guarded := false
-		for _, ct := range dominatingConds(in.Block()) {
-			c, ok := ct.Cond.(*ssa.Call)
-			if !ok || c.Call.StaticCallee() == nil || c.Call.StaticCallee().Name() != "Contains" {
-				continue
+		compressed := p.constOf("primitive", "HeaderFlagCompressed").ExactString()
+		isCompressedTest := func(c *ssa.Call) bool {
+			if c.Call.StaticCallee() == nil || c.Call.StaticCallee().Name() != "Contains" || len(c.Call.Args) < 2 {
+				return false
 			}
-			if k, ok := c.Call.Args[1].(*ssa.Const); ok && k.Value != nil && k.Value.ExactString() == p.constOf("primitive", "HeaderFlagCompressed").ExactString() && !ct.Truth {
-				guarded = true
-			}
+			k, ok := c.Call.Args[1].(*ssa.Const)
+			return ok && k.Value != nil && k.Value.ExactString() == compressed
 		}
+		guarded := guardHolds(p, in.Block(), func(ct condTruth) bool {
+			c, ok := ct.Cond.(*ssa.Call)
+			if !ok {
+				return false
+			}
+			if isCompressedTest(c) && !ct.Truth {
+				return true
+			}
+			// a repo predicate over the header flags that can only be true when the Compressed flag is clear
+			callee := c.Call.StaticCallee()
+			if callee == nil || !p.InRepo(callee) || !ct.Truth {
+				return false
+			}
+			s := newSim(p)
+			s.Model = func(sm *Sim, st *State, call ssa.CallInstruction, cal *ssa.Function) []*State {
+				if cc, ok := call.(*ssa.Call); ok && isCompressedTest(cc) {
+					t, f := st.clone(), st.clone()
+					t.aux["compressed"] = "T"
+					f.aux["compressed"] = "F"
+					SetCallResult(t, call, avBool(true))
+					SetCallResult(f, call, avBool(false))
+					return []*State{t, f}
+				}
+				return nil
+			}
+			okPred := true
+			sawTest := false
+			for _, o := range s.Run(callee, newState()) {
+				if o.Panic {
+					continue
+				}
+				if o.St.aux["compressed"] != "" {
+					sawTest = true
+				}
+				if b, known := o.Ret.isBool(); (!known || b) && o.St.aux["compressed"] != "F" {
+					okPred = false
+				}
+			}
+			return okPred && sawTest
+		}, 2)
 		if !guarded {
 			bad = append(bad, p.Pos(in.Pos())+": "+descs[i]+" reads body bytes that may be compressed")
 		}
